@@ -85,6 +85,21 @@ def cases(tier, seed):
                                     "boxes_only": vi > 0, "devlevel": devlevel[vi]})
                         c = out[-1]
                         c["w"] = (60 if c["full"] else (1 if c["boxes_only"] else 6)) * nlev
+    # names that differ by letter case only; a repeated name next to a field literally named like its generated key
+    for fi, flds in enumerate((list(scope.CASE_FIELDS), ["density", "temp", "temp_2", "temp"])):
+        for nd in (2, 3):
+            m = scope.named_meshes(nd)[1]
+            d = dict(m)
+            d.update(geos[nd][fi])
+            d.update({"fields": flds, "layout": [None, scope.layouts(len(m["levels"][1]), 'idrev')[-1]], "payload": "coded", "time": times[1], "seed": seed})
+            out.append({"desc": d, "full": False, "maxlist": 2, "boxes_only": False, "devlevel": None, "w": 12, "names_case": True})
+    # 27 + 20 boxes scattered over five / three files (more boxes than the small-array shortcuts of sorting routines)
+    m = scope.many_box_mesh()
+    d = dict(m)
+    d.update(geos[3][2])
+    d.update({"fields": ["temp", "density", "Z"], "layout": [scope.scattered_layout(27, 5), scope.scattered_layout(20, 3)], "payload": "coded",
+              "time": times[2], "seed": seed})
+    out.append({"desc": d, "full": False, "maxlist": 2, "boxes_only": True, "devlevel": 0, "w": 40, "many": True})
     # seven levels refined towards the far corner, twelve fields: FAB header lines longer than 100 bytes
     m = scope.deep_corner_mesh()
     for vi, lays in enumerate(([None] * 7, [scope.layouts(2, 'idrev')[-1]] * 7)):
